@@ -28,6 +28,7 @@ func checkC02(p *Prog, res *Result, tier string) {
 	res.rule("C02-R2", "every version key written to storage carries an allocated revision", 5)
 	res.rule("C02-R3", "only the sequencer, the leader-start callback, the follower sync and pass-throughs call TSO.Init/Commit/SetCurrentRevision", 3)
 	res.rule("C02-R5", "along one key's history revisions increase: guards of the index CAS (create over a tombstone only if prevRevision < revision; delete only if newRevision > modRevision) — C01-R3/R4", 5)
+	res.rule("C02-R6", "a node that becomes leader seeds its counters from the lock's engine timestamp before it admits writes (C15-R1): no revision is handed out twice across a hand-over", 3)
 	res.rule("C02-R4", "each backend response with header revision h and data revision d establishes h >= d by an accepted proof form", 5)
 
 	// ---- R1 ----
@@ -201,6 +202,9 @@ func checkC02(p *Prog, res *Result, tier string) {
 
 	// ---- R4 ----
 	checkHeaderVsData(p, r, a, res)
+
+	// ---- R6: hand-over (C15-R1) ----
+	checkLeaderStart(p, r, res, "C02-R6")
 }
 
 // isAllocated: v is the allocated-revision result of an allocation site, possibly through parameters (all call sites).
@@ -619,20 +623,46 @@ func checkRangeHeader(p *Prog, r *Roles, res *Result) {
 				res.ok("C02-R4", construct, p.pos(c.Pos()), "scan bound is the header revision")
 				continue
 			}
-			// bound = phi(client revision, h) -> data may exceed the header when the client names a future revision
+			// bound = phi(client revision, h) -> data may exceed the header when the client names a future revision.
+			// Each source of the bound is judged on its own, so that the recorded finding (client-supplied revision)
+			// does not hide a different defect (e.g. a second, later read of the committed revision).
+			edges := []ssa.Value{bound}
 			if ph, ok := bound.(*ssa.Phi); ok {
-				allOK := true
+				edges = nil
 				for _, e := range ph.Edges {
-					if p.resolveDeep(e) != h {
-						allOK = false
-					}
-				}
-				if allOK {
-					res.ok("C02-R4", construct, p.pos(c.Pos()), "scan bound is the header revision on every path")
-					continue
+					edges = append(edges, p.resolveDeep(e))
 				}
 			}
-			res.bad("C02-R4", construct, p.pos(c.Pos()), "the scan is bounded by a client-supplied read revision that is not clamped to the committed revision used as header: a read at a revision above the committed one returns data newer than the header")
+			client, other := false, ""
+			for _, e := range edges {
+				if e == h {
+					continue
+				}
+				isReqField := false
+				if ld, ok := e.(*ssa.UnOp); ok && ld.Op == token.MUL {
+					if fa, ok := ld.X.(*ssa.FieldAddr); ok {
+						if _, isPrm := p.resolveDeep(fa.X).(*ssa.Parameter); isPrm {
+							isReqField = true
+						}
+					}
+				}
+				if isReqField {
+					client = true
+				} else {
+					other = e.String()
+				}
+			}
+			c2 := funcName(f) + ": scan bound and header come from the same read of the committed revision"
+			if other != "" {
+				res.bad("C02-R4", c2, p.pos(c.Pos()), "when the client names no revision the scan is bounded by a value ("+other+") other than the one placed in the header: a write committed between the two reads is returned with a revision above the header")
+			} else {
+				res.ok("C02-R4", c2, p.pos(c.Pos()), "the default bound is the header value itself")
+			}
+			if client {
+				res.bad("C02-R4", construct, p.pos(c.Pos()), "the scan is bounded by a client-supplied read revision that is not clamped to the committed revision used as header: a read at a revision above the committed one returns data newer than the header")
+			} else {
+				res.ok("C02-R4", construct, p.pos(c.Pos()), "scan bound is the header revision on every path")
+			}
 		}
 	}
 }
